@@ -732,3 +732,116 @@ fn sm_drop_multishot() {
 
 }
 
+
+// ===========================================================================
+// C03: the window between a failed `add` (queue full) and the registration of
+// the waiter.
+// ===========================================================================
+
+static mut RACE_ARMED: crate::verif_stubs::V<bool> = crate::verif_stubs::V::new(false);
+static mut RACE_FIRED: crate::verif_stubs::V<bool> = crate::verif_stubs::V::new(false);
+static mut RACE_AT: crate::verif_stubs::V<u32> = crate::verif_stubs::V::new(99);
+static mut RACE_YIELDS: crate::verif_stubs::V<u32> = crate::verif_stubs::V::new(0);
+static mut RACE_SHARED: crate::verif_stubs::V<*const crate::io_uring::Shared> = crate::verif_stubs::V::new(std::ptr::null());
+
+/// Specification-level model of `Shared::wake_blocked_futures` (the real one is
+/// decided on its own by sm_wake_blocked*: at least min(waiters, free slots)
+/// waiters woken, longest-waiting first, the others kept): wakes the first
+/// min(n, available) registered waiters and keeps the rest. Works on the list
+/// through its data pointer (the list lock is not held at any call site).
+fn wake_blocked_model(shared: &crate::io_uring::Shared) {
+    let unsubmitted = k::sq_tail().wrapping_sub(k::sq_head());
+    let available = (shared.submissions_len.saturating_sub(unsubmitted)) as usize;
+    let list: &mut Vec<std::task::Waker> = unsafe { &mut *shared.blocked_futures.data_ptr() };
+    // (at most one waiter is registered in the harness below, so the order
+    // among waiters does not arise; pop() avoids Vec::remove's shifting loop)
+    if available >= 1 {
+        if let Some(w) = list.pop() {
+            w.wake();
+        }
+    }
+}
+
+/// Another thread's Ring::poll running inside the window: its kernel entry
+/// submits everything that was queued (so the queue has room again) and then
+/// offers that room to the waiters registered SO FAR.
+fn other_thread_polls(kind: u32) {
+    unsafe {
+        if kind != crate::io_uring::verif_hooks::YIELD_LOCK || !RACE_ARMED.v {
+            return;
+        }
+        RACE_YIELDS.v += 1;
+        if !RACE_FIRED.v && RACE_YIELDS.v == RACE_AT.v {
+            RACE_FIRED.v = true;
+            let mem = k::sq_mem();
+            mem.head.store(k::sq_tail(), std::sync::atomic::Ordering::Relaxed);
+            wake_blocked_model(&*RACE_SHARED.v);
+        }
+    }
+}
+
+sm_stubs! {
+
+//@ prop: C03
+//@ tier: quick
+//@ what: no lost wake-up for freed submission-queue space across the window between the failed add (queue full) and the registration of the waiter: another thread's Ring::poll makes room at the LAST lock boundary of the poll -- after the fullness check failed, before the waiter is on the list. When poll returns Pending its waker must have been invoked (so the executor re-polls and finds room): a registered waiter is never left sleeping next to free slots that nobody will offer again
+//@ bound: ring of 2, full; one poll; the other thread's poll (kernel consumes everything + offers the room to the waiters registered so far) fires at the 2nd and last lock boundary of the poll (1st: the submission lock inside add, 2nd: the waiter-list lock)
+//@ encodes: io_uring::op::poll_inner (NotStarted arm, QueueFull); io_uring::sq::Submissions::{add,wait_for_submission}
+//@ stubs: io_uring::Shared::wake_blocked_futures -> specification-level model (the real function: sm_wake_blocked*); crate::lock -> yield + try_lock model; Waker -> direct calls; <core::io::CustomOwner as Drop>::drop -> no-op
+//@ assumes: thread interleaving at lock granularity (DESIGN 2.3)
+#[kani::stub(crate::io_uring::Shared::wake_blocked_futures, wake_blocked_model)]
+fn sm_queue_full_registration_race() {
+    queue_full_race(2);
+    kani::cover!(unsafe { RACE_FIRED.v }, "room made inside the window");
+}
+
+//@ prop: C03
+//@ tier: quick
+//@ what: the same with the other thread's poll firing one lock boundary earlier (at the submission lock, before the fullness check under it): the operation is submitted after all; and with no interference it waits for a slot without being woken
+//@ bound: ring of 2, full; interference at the 1st lock boundary or never (symbolic)
+//@ encodes: io_uring::op::poll_inner; io_uring::sq::Submissions::{add,wait_for_submission}
+//@ stubs: as sm_queue_full_registration_race
+#[kani::stub(crate::io_uring::Shared::wake_blocked_futures, wake_blocked_model)]
+fn sm_queue_full_race_before_check() {
+    let at = if kani::any() { 1 } else { 99 };
+    queue_full_race(at);
+    kani::cover!(at == 1);
+    kani::cover!(at == 99);
+}
+
+}
+
+fn queue_full_race(at: u32) {
+    let sq = ring(0);
+    let mut t = k::base_table();
+    t.yield_point = Some(other_thread_polls);
+    k::install(t);
+    unsafe {
+        RACE_SHARED.v = sq.submissions().shared();
+        RACE_FIRED.v = false;
+        RACE_YIELDS.v = 0;
+        RACE_AT.v = at;
+        RACE_ARMED.v = true;
+    }
+    let mut st: State<Singleshot, Res, u32> = State::new(new_res(), 4);
+    let w = k::waker(2);
+    let mut ctx = Context::from_waker(&w);
+    let r = poll(&sq, &mut st, &mut ctx, fill, map_ok, fallback);
+    unsafe { RACE_ARMED.v = false };
+    assert!(r.is_pending());
+    let fired = unsafe { RACE_FIRED.v };
+    let submitted = ops::state_tag(&st) == ops::Tag::Running;
+    let room = k::sq_tail().wrapping_sub(k::sq_head()) < 2;
+    if !submitted && room {
+        assert!(k::wakes(2) >= 1, "room is available and nobody will offer it again: the waiter must have been woken");
+    }
+    if !fired {
+        assert!(!submitted && !room && k::wakes(2) == 0, "no interference: waits for a slot");
+    }
+    if at == 99 {
+        assert!(!fired);
+    }
+    std::mem::forget(r);
+    std::mem::forget(st);
+    std::mem::forget(sq);
+}
